@@ -38,3 +38,41 @@ func (*D) Read(p []byte) (int, error) { return 0, nil }
 type E struct{}
 
 func (E) Name() string { return "e" }
+
+// Wide has thirty methods; a type that claims it and has none gets one long diagnostic.
+type Wide interface {
+	OperationNumber01WithALongDescriptiveName(argument1 string, more ...int) (result map[string][]int, err error)
+	OperationNumber02WithALongDescriptiveName(argument2 string, more ...int) (result map[string][]int, err error)
+	OperationNumber03WithALongDescriptiveName(argument3 string, more ...int) (result map[string][]int, err error)
+	OperationNumber04WithALongDescriptiveName(argument4 string, more ...int) (result map[string][]int, err error)
+	OperationNumber05WithALongDescriptiveName(argument5 string, more ...int) (result map[string][]int, err error)
+	OperationNumber06WithALongDescriptiveName(argument6 string, more ...int) (result map[string][]int, err error)
+	OperationNumber07WithALongDescriptiveName(argument7 string, more ...int) (result map[string][]int, err error)
+	OperationNumber08WithALongDescriptiveName(argument8 string, more ...int) (result map[string][]int, err error)
+	OperationNumber09WithALongDescriptiveName(argument9 string, more ...int) (result map[string][]int, err error)
+	OperationNumber10WithALongDescriptiveName(argument10 string, more ...int) (result map[string][]int, err error)
+	OperationNumber11WithALongDescriptiveName(argument11 string, more ...int) (result map[string][]int, err error)
+	OperationNumber12WithALongDescriptiveName(argument12 string, more ...int) (result map[string][]int, err error)
+	OperationNumber13WithALongDescriptiveName(argument13 string, more ...int) (result map[string][]int, err error)
+	OperationNumber14WithALongDescriptiveName(argument14 string, more ...int) (result map[string][]int, err error)
+	OperationNumber15WithALongDescriptiveName(argument15 string, more ...int) (result map[string][]int, err error)
+	OperationNumber16WithALongDescriptiveName(argument16 string, more ...int) (result map[string][]int, err error)
+	OperationNumber17WithALongDescriptiveName(argument17 string, more ...int) (result map[string][]int, err error)
+	OperationNumber18WithALongDescriptiveName(argument18 string, more ...int) (result map[string][]int, err error)
+	OperationNumber19WithALongDescriptiveName(argument19 string, more ...int) (result map[string][]int, err error)
+	OperationNumber20WithALongDescriptiveName(argument20 string, more ...int) (result map[string][]int, err error)
+	OperationNumber21WithALongDescriptiveName(argument21 string, more ...int) (result map[string][]int, err error)
+	OperationNumber22WithALongDescriptiveName(argument22 string, more ...int) (result map[string][]int, err error)
+	OperationNumber23WithALongDescriptiveName(argument23 string, more ...int) (result map[string][]int, err error)
+	OperationNumber24WithALongDescriptiveName(argument24 string, more ...int) (result map[string][]int, err error)
+	OperationNumber25WithALongDescriptiveName(argument25 string, more ...int) (result map[string][]int, err error)
+	OperationNumber26WithALongDescriptiveName(argument26 string, more ...int) (result map[string][]int, err error)
+	OperationNumber27WithALongDescriptiveName(argument27 string, more ...int) (result map[string][]int, err error)
+	OperationNumber28WithALongDescriptiveName(argument28 string, more ...int) (result map[string][]int, err error)
+	OperationNumber29WithALongDescriptiveName(argument29 string, more ...int) (result map[string][]int, err error)
+	OperationNumber30WithALongDescriptiveName(argument30 string, more ...int) (result map[string][]int, err error)
+}
+
+// F misses every method of Wide: the message is several kilobytes long and still complete.
+// @implements Wide
+type F struct{}
